@@ -461,6 +461,13 @@ def dynamics_spec(rng, ctx, *, sl_bias=0.35, schedule=True, kind=None, same_solv
         op['stop'] = random_stop(rng, spec)
         ops = [op]
     spec['ops'] = ops
+    if rng.random() < 0.08 and spec['motor']['i0'] is not None and spec['motor']['i0'][0] > 0:
+        # coasting: no load at all and the supply cut after a while (dead zone: the motor torque is exactly zero),
+        # so the net torque and the acceleration become exactly null while the chain keeps turning
+        spec['load']['coef'] = [0.0, 0.0, 0.0, 0.0, 0.0]
+        k = rng.randint(1, max(1, total // 2))
+        spec['rules'] = [{'type': 'const', 'start': [0.0, 'sec'], 'dur': [k * dt, 'sec'], 'value': 1.0},
+                         {'type': 'const', 'start': [(k + 1) * dt, 'sec'], 'dur': [1e6, 'sec'], 'value': 0}]
     if kind in ('split', 'reset') and rng.random() < 0.2:
         # the user replaces the load function between two runs on the same powertrain and solver
         c0 = spec['load']['coef']
